@@ -31,7 +31,11 @@ Inductive bnode : Type :=
 | BGen (init : val) (f : val -> val -> val * gen) (x : bnode)
 | BDefer (x : bnode)
 | BChainFirst (x y : bnode)                          (* Optional::or / unwrap_or: chain_first_n(1) *)
-| BReduceKeyedWm (f : val -> val -> val) (x w : bnode).   (* KeyedStream::reduce_watermark *)
+| BReduceKeyedWm (f : val -> val -> val) (x w : bnode)    (* KeyedStream::reduce_watermark *)
+| BDifference (x y : bnode)                          (* filter_not_in: difference::<'tick,'tick> *)
+| BCrossNL (x y : bnode)                             (* cross_product_nested_loop: HydroNode::CrossProduct *)
+| BConst (v : val)                                   (* tick.singleton: SingletonSource, every tick *)
+| BFirstTick (v : val).                              (* optional_first_tick: SingletonSource, first tick only *)
 
 (* operators of DFIR used only here *)
 Definition sort_step (_ : unit) (xs : list val) : list val * unit := (vsort xs, tt).
@@ -41,6 +45,11 @@ Definition chain_step (_ : unit) (xy : list val * list val) : list val * unit :=
   (fst xy ++ snd xy, tt).
 Definition anti_tick_step (s : list val) (pn : list val * list val) : list val * list val :=
   (anti (s ++ snd pn) (fst pn), s ++ snd pn).
+
+(* persist::<'static> replays everything it has seen *)
+Definition persist_step (s xs : list val) : list val * list val := (s ++ xs, s ++ xs).
+Definition diff_tick_step (s : list val) (pn : list val * list val) : list val * list val :=
+  (diff (s ++ snd pn) (fst pn), s ++ snd pn).
 
 Definition chain_first_step (_ : unit) (xy : list val * list val) : list val * unit :=
   (firstn 1 (fst xy ++ snd xy), tt).
@@ -100,6 +109,11 @@ Fixpoint brun (n : bnode) (bs : list env) : list (list val) :=
   | BDefer x => op_run LStatic [] defer_step (brun x bs)
   | BChainFirst x y => op_run LTick tt chain_first_step (combine (brun x bs) (brun y bs))
   | BReduceKeyedWm f x w => op_run LTick tt (wm_step f) (combine (brun x bs) (brun w bs))
+  | BDifference x y => op_run LTick [] diff_tick_step (combine (brun x bs) (brun y bs))
+  | BCrossNL x y => op_run LTick ([], []) (pair_step cmatch LTick LTick) (combine (brun x bs) (brun y bs))
+  (* source_iter([v]) -> persist::<'static>() *)
+  | BConst v => op_run LStatic [] persist_step (first_tick [v] bs)
+  | BFirstTick v => first_tick [v] bs
   end.
 
 (* specification: the finite-batch list function of every operator *)
@@ -131,6 +145,10 @@ Fixpoint bspec (n : bnode) (bs : list env) : list (list val) :=
   | BDefer x => shift (bspec x bs)
   | BChainFirst x y => map (fun p => firstn 1 (fst p ++ snd p)) (combine (bspec x bs) (bspec y bs))
   | BReduceKeyedWm f x w => map (fun p => wm_spec f (fst p) (snd p)) (combine (bspec x bs) (bspec w bs))
+  | BDifference x y => map (fun p => diff (snd p) (fst p)) (combine (bspec x bs) (bspec y bs))
+  | BCrossNL x y => map (fun p => cross (fst p) (snd p)) (combine (bspec x bs) (bspec y bs))
+  | BConst v => map (fun _ => [v]) bs
+  | BFirstTick v => first_tick [v] bs
   end.
 
 (* the Ordering parameter as the Rust signatures compute it (since /repo 62bf4bf2be4 a join /
@@ -141,10 +159,10 @@ Fixpoint bord (n : bnode) : bool :=
   | BBatch _ => true
   | BWeaken _ => false
   | BMap _ x | BFilter _ x | BFlatMap _ x | BUnique x | BDefer x | BGen _ _ x => bord x
-  | BChain x y | BJoin x y | BCross x y => bord x && bord y
+  | BChain x y | BJoin x y | BCross x y | BCrossNL x y => bord x && bord y
   | BSort _ | BEnumerate _ => true
-  | BAntiJoin x _ | BCrossSingleton x _ => bord x
-  | BFold _ _ _ | BReduce _ _ | BChainFirst _ _ => true
+  | BAntiJoin x _ | BCrossSingleton x _ | BDifference x _ => bord x
+  | BFold _ _ _ | BReduce _ _ | BChainFirst _ _ | BConst _ | BFirstTick _ => true
   | BFoldKeyed _ _ _ | BReduceKeyed _ _ | BReduceKeyedWm _ _ _ => false
   end.
 (* the typing before the fix: the LEFT ordering, whatever the right ordering is *)
@@ -154,10 +172,10 @@ Fixpoint bord_before_fix (n : bnode) : bool :=
   | BBatch _ => true
   | BWeaken _ => false
   | BMap _ x | BFilter _ x | BFlatMap _ x | BUnique x | BDefer x | BGen _ _ x => bord_before_fix x
-  | BChain x y => bord_before_fix x && bord_before_fix y
+  | BChain x y | BCrossNL x y => bord_before_fix x && bord_before_fix y
   | BSort _ | BEnumerate _ => true
-  | BAntiJoin x _ | BCrossSingleton x _ => bord_before_fix x
-  | BFold _ _ _ | BReduce _ _ | BChainFirst _ _ => true
+  | BAntiJoin x _ | BCrossSingleton x _ | BDifference x _ => bord_before_fix x
+  | BFold _ _ _ | BReduce _ _ | BChainFirst _ _ | BConst _ | BFirstTick _ => true
   | BFoldKeyed _ _ _ | BReduceKeyed _ _ | BReduceKeyedWm _ _ _ => false
   end.
 
@@ -185,6 +203,10 @@ Fixpoint bemit (n : bnode) : list string :=
   | BDefer x => "defer_tick_lazy" :: bemit x
   | BChainFirst x y => "chain_first_n" :: bemit x ++ bemit y
   | BReduceKeyedWm _ x w => "chain" :: "map" :: "map" :: "fold<'tick>" :: "flat_map" :: bemit x ++ bemit w
+  | BDifference x y => "difference<'tick,'tick>" :: bemit x ++ bemit y
+  | BCrossNL x y => "cross_join_multiset<'tick,'tick>" :: bemit x ++ bemit y
+  | BConst _ => ["source_iter"; "persist<'static>"]
+  | BFirstTick _ => ["source_iter"]
   end.
 Close Scope string_scope.
 
@@ -274,15 +296,19 @@ Fixpoint bspec_o (sigma : list val -> list val) (n : bnode) (bs : list env) : li
       map (fun p => firstn 1 (fst p ++ snd p)) (combine (bspec_o sigma x bs) (bspec_o sigma y bs))
   | BReduceKeyedWm f x w =>
       map (fun p => wm_spec f (fst p) (snd p)) (combine (bspec_o sigma x bs) (bspec_o sigma w bs))
+  | BDifference x y => map (fun p => diff (snd p) (fst p)) (combine (bspec_o sigma x bs) (bspec_o sigma y bs))
+  | BCrossNL x y => map (fun p => cross (fst p) (snd p)) (combine (bspec_o sigma x bs) (bspec_o sigma y bs))
+  | BConst v => map (fun _ => [v]) bs
+  | BFirstTick v => first_tick [v] bs
   end.
 
 (* what the staged API demands of order-sensitive operators (IsOrdered bounds, commutativity
    obligations); sort() accepts any input order *)
 Fixpoint bwf (n : bnode) : Prop :=
   match n with
-  | BBatch _ => True
+  | BBatch _ | BConst _ | BFirstTick _ => True
   | BWeaken x | BMap _ x | BFilter _ x | BFlatMap _ x | BUnique x | BDefer x | BSort x => bwf x
-  | BChain x y | BJoin x y | BCross x y | BAntiJoin x y => bwf x /\ bwf y
+  | BChain x y | BJoin x y | BCross x y | BAntiJoin x y | BDifference x y | BCrossNL x y => bwf x /\ bwf y
   | BEnumerate x | BGen _ _ x | BFoldKeyed _ _ x | BReduceKeyed _ x => bord x = true /\ bwf x
   | BCrossSingleton x s => bord s = true /\ bwf x /\ bwf s
   | BChainFirst x y | BReduceKeyedWm _ x y => bord x = true /\ bord y = true /\ bwf x /\ bwf y
